@@ -1,7 +1,7 @@
 (* C08 constrained forward dynamics: the returned accelerations and constraint forces satisfy the motion
    and the constraint equations, and are the only pair that does (so all solution methods agree). *)
 From Coq Require Import List.
-From RV Require Import Scalar Laws ListArr LinDef LinThm ModelDef DynDef ConsDef ConsThm C14Thm DimThm.
+From RV Require Import Scalar Laws LinAlg3 Spatial ListArr LinDef LinThm ModelDef JointDef KinDef DynDef ConsDef ConsThm C14Thm DimThm KinThm C04Thm FdcThm.
 Import ListNotations.
 Section P.
   Context {T : Type} (O : Ops T) {FL : FieldLaws O}.
@@ -44,6 +44,30 @@ Section P.
     mvmul O (cG Sy) qdd = cgamma Sy.
   Proof. intros W. exact (fdc_equations_sized O oeqb_spec M w q qd tau cs fext w' Sy qdd lam (wf_qdot M W)). Qed.
 End P.
+Section P3.
+  Context {T : Type} (O : Ops T) {FL : FieldLaws O} {TL : TrigLaws O}.
+  Hypothesis oeqb_spec : forall x y : T, oeqb O x y = true <-> x = y.
+  (* the equations of motion WITH the constraint forces, in terms of inverse dynamics: the returned acceleration put
+     into InverseDynamics (from any well-formed workspace) gives tau + G^T lambda component by component, and
+     G qdd = gamma (f_ext = NULL; premises as for C03_inverse_dynamics_is_H_qddot_plus_nonlinear_effects) *)
+  Theorem C08_inverse_dynamics_of_the_returned_acceleration_is_tau_plus_constraint_forces
+    (M : @Model T) q qd (w0 w1 : @WS T) (tau : list T) cs w' Sy qdd lam : WF M ->
+    (forall i j, 0 < i < nbodies M -> 0 < j < nbodies M -> i <> j ->
+       is_custom (jkind (getJ M i)) = true -> is_custom (jkind (getJ M j)) = true -> jcust (getJ M i) <> jcust (getJ M j)) ->
+    (forall i u, 0 < i < nbodies M -> bvirtual (getbody O M i) = true -> rbi_mulv O (getI O M i) u = svzero O) ->
+    jq (getJ M 0) + jdof (getJ M 0) = 0 ->
+    (forall i, 0 < i < nbodies M -> joint_wf O M q i) -> o2 O <> o0 O -> order_ok M = true ->
+    Good O M w0 -> Good O M w1 -> length tau = dof_count M ->
+    forward_dynamics_constraints O M w0 q qd tau cs None = (w', Sy, Some (qdd, lam)) ->
+    (forall r, r < dof_count M ->
+       nth r (snd (inverse_dynamics O M w1 q qd qdd (vzeros (o0 O) (dof_count M)) None)) (o0 O) =
+       oadd O (nth r tau (o0 O)) (nth r (mTvmul O (cG Sy) (dof_count M) lam) (o0 O))) /\
+    mvmul O (cG Sy) qdd = cgamma Sy.
+  Proof.
+    intros W C V R J N2 Ord G0 G1 L E.
+    exact (fdc_equations_of_motion O oeqb_spec M q qd W C V R J N2 Ord w0 w1 tau cs w' Sy qdd lam G0 G1 L E).
+  Qed.
+End P3.
 Print Assumptions C08_solver_sound.
 Print Assumptions C08_solver_unique.
 Print Assumptions C08_motion_and_constraint_equations.
@@ -63,3 +87,4 @@ Proof.
   intros [|[|i]] H; try reflexivity. exfalso. apply (PeanoNat.Nat.nlt_0_r i). apply le_S_n, le_S_n. exact H.
 Qed.
 Print Assumptions C08_motion_and_constraint_equations_constructed_models.
+Print Assumptions C08_inverse_dynamics_of_the_returned_acceleration_is_tau_plus_constraint_forces.
